@@ -10,6 +10,9 @@ CONFIG = {
         "V.C02.listKeyIDs_complete", "V.C02.sign_never_panics", "V.C02.toy_ideal", "V.Sign.b64Decode_encode",
         "V.C02.verifyText_iff", "V.C02.signText_ok", "V.C02.ambiguous_never_verifies", "V.C02.ambiguous_never_signed",
         "V.C02.dup_or_illformed_never_verifies", "V.C02.gate_uniqueKeys", "V.C02.verify_text_sound_tamper", "V.C02.strict_signStrict",
+        # second audit: X1 - a text nested deeper than encoding/json reads (10000) is refused before anything recursive looks at it
+        # (json.Valid first; the model never evaluates `parse` on it); X4 - VerifyJSON's gate does not look into the VALUE of `unsigned`
+        "V.C02.deep_refused_unread", "V.C02.deep_array_refused", "V.C02.gate_ignores_unsigned_value",
     ],
     "rule": "sign: generated objects (C01's value generator; pre-existing signature maps with canonical / URL-safe / CRLF / "
             "non-canonical / invalid base64, null and ill-typed maps; `unsigned`; case-variant keys Signatures / unſigned ...) "
@@ -22,11 +25,20 @@ CONFIG = {
             "tamperings that keep the old signature: a lone surrogate escape written into a string or member name of the signed "
             "members, a duplicate member placed first or last in the top-level or a nested object (also with the name respelled "
             "\\u00XX), invalid UTF-8 (U+FFFD in a name rewritten to a byte Go reads as U+FFFD), and the same inside "
-            "`signatures` / `unsigned` or as a second `signatures` / `unsigned` member); sign is also run on such texts. The "
+            "`signatures` / `unsigned` or as a second `signatures` / `unsigned` member); sign is also run on such texts. "
+            "deep_verify / deep_sign (every tier, each in a child process under a 5 s budget; `panic:timeout` / `panic:fatal-stack-overflow` "
+            "are outcomes): a correctly signed object one part of which - a signed member (arrays / objects), `unsigned`, the inside of "
+            "`signatures`, an array never closed - is nested 100 ... 9999, 10000, 20000, 100000 (thorough: up to 8 000 000) deep, built from "
+            "(kind, depth) on both sides: verified / signed up to encoding/json's limit of 10000 levels, refused beyond, never a crash or a "
+            "hang (C18: second audit X1 - between /repo 185cb68 and its repair the gate recursed first: 100 000 levels took 20 s, 8 000 000 "
+            "a fatal stack overflow). The "
             "specification DEMANDS refusal (sign: err, accept: rej) whenever the signed members are not one definite value for "
-            "every reader (Spec.definitePayload) and is silent (`unspecified`) when the ambiguity is confined to `signatures` / "
-            "`unsigned`; the model (signJSONText / verifyJSONText = the gate checkStrictJSON + the value-level model) refuses "
-            "both. The gate is SPLIT: VerifyJSON refuses duplicate names, lone surrogate escapes and invalid UTF-8; SignJSON only the "
+            "every reader (Spec.definitePayload), DEMANDS the ordinary answer (accept: ok for a valid signature) when the ambiguity is "
+            "confined to the VALUE of the `unsigned` member (the property: a signed object verifies after `unsigned` is changed - to "
+            "anything; second audit X4: VerifyJSON refused such objects since 185cb68, fails safe) and is silent (`unspecified`) when it "
+            "sits in `signatures` or in a second `signatures` / `unsigned` member; the model (signJSONText / verifyJSONText = the gate "
+            "checkStrictJSON + the value-level model) refuses those, and SignJSON an ambiguous value of `unsigned` as well (it re-emits it). "
+            "The gate is SPLIT: VerifyJSON refuses duplicate names, lone surrogate escapes and invalid UTF-8; SignJSON only the "
             "first two (PDU.Sign panics when signing fails and the event constructors accept invalid UTF-8 in kept fields), so "
             "`sign.sign` on a text that passes SignJSON's gate but is not valid UTF-8 is skipped (outside the property: JSON texts are "
             "Unicode; SignJSON behaves there as before the repair). The model decides "
@@ -48,9 +60,14 @@ CONFIG = {
         "repair: VerifyJSON refuses all three, SignJSON duplicate names and lone surrogate escapes (V.C02.ambiguous_never_verifies / "
         "ambiguous_never_signed, strict_signStrict; VerifyJSON's gate = C01's domain, so "
         "the UniqueKeys / numsOk hypotheses of the value-level theorems hold for every message that is read: gate_uniqueKeys, "
-        "parse_numsOk). Decision on the excluded members: the Go gate covers the WHOLE message (a second `signatures` / `unsigned` "
-        "member and duplicates / ill-formed strings inside them are refused too); the specification demands that only for the signed "
-        "members. ListKeyIDs has no gate: `sign.list` on a text the gate refuses is skipped (its callers go on to VerifyJSON)",
+        "parse_numsOk). Decision on the excluded members: SignJSON's gate covers the WHOLE message, VerifyJSON's everything but the "
+        "inside of the value of the top-level `unsigned` member (a second `signatures` / `unsigned` member and duplicates / ill-formed "
+        "strings inside `signatures` are refused; V.C02.gate_ignores_unsigned_value); the specification demands refusal only for the "
+        "signed members. DECISION (X4, second half): SignJSON still accepts invalid UTF-8 and its output then does not verify (fails "
+        "safe): making it refuse would make PDU.Sign panic on events the untrusted constructors accept (they take invalid UTF-8 in "
+        "kept fields such as `type`) - to be repaired in the event constructors first; a text that is not valid UTF-8 is not a JSON "
+        "text (RFC 8259 8.1), `sign.sign` on one stays skipped. Nesting: both gates begin with the depth limit of encoding/json "
+        "(Sign.depthOk, 10000). ListKeyIDs has no gate: `sign.list` on a text the gate refuses is skipped (its callers go on to VerifyJSON)",
         "top-level case variants of the two keys (Signatures, unſigned, ...) are ordinary signed members (exact-name reading since "
         "/repo 0fb2afd); they are generated on purpose and the specification stream demands exactly that",
     ],
